@@ -40,7 +40,7 @@ def _get_axes(*arrays):
             axis = o.axes[dim]
 
             # update values
-            if common_axis is None or (common_axis.size==1 and axis.size > 1):
+            if common_axis is None or (common_axis.size==1 and axis.size != 1):
                 common_axis = axis
 
             # Test alignment for non-singleton axes
